@@ -28,9 +28,10 @@ def _one(args):
     stmts, acks, status, late = args[:4]
     lose = args[4] if len(args) > 4 else 0
     slow = tuple(args[5]) if len(args) > 5 and args[5] else None
+    mode = args[6] if len(args) > 6 else "serial"
     return serial_rec.run_direct([bytes(s) for s in stmts], [bytes(a) for a in acks],
                                  status={int(k): [bytes(x) for x in v] for k, v in status.items()}, late_hs=late, lose_at=lose,
-                                 slow=slow)
+                                 slow=slow, mode=mode)
 
 
 def run_all(specs, par=12):
@@ -41,12 +42,13 @@ def enc(spec):
     stmts, acks, status, late = spec[:4]
     return {"stmts": [list(s) for s in stmts], "acks": [list(a) for a in acks],
             "status": {str(k): [list(x) for x in v] for k, v in status.items()}, "late": late,
-            "lose": spec[4] if len(spec) > 4 else 0, "slow": list(spec[5]) if len(spec) > 5 and spec[5] else None}
+            "lose": spec[4] if len(spec) > 4 else 0, "slow": list(spec[5]) if len(spec) > 5 and spec[5] else None,
+            "mode": spec[6] if len(spec) > 6 else "serial"}
 
 
 def dec(d):
     return ([bytes(s) for s in d["stmts"]], [bytes(a) for a in d["acks"]],
-            {int(k): [bytes(x) for x in v] for k, v in d["status"].items()}, d["late"], d.get("lose", 0), d.get("slow"))
+            {int(k): [bytes(x) for x in v] for k, v in d["status"].items()}, d["late"], d.get("lose", 0), d.get("slow"), d.get("mode", "serial"))
 
 
 def project(trace, spec):
@@ -178,7 +180,9 @@ class P(flow.Plan):
             lose = rng.randint(1, k) if i % 5 == 4 else 0          # connection loss while statement `lose` is in flight
             # arbitrary acknowledgement latency: longer than the writer's own (connection) timeout
             slow = (rng.randint(1, k), 0.25, 0.6) if i % 7 == 2 and not lose else None
-            specs.append((stmts, acks, status, rng.random() < 0.15 and not lose and not slow, lose, slow))
+            # every third scenario goes through a SocketWriter (TCP: no line numbers; replies arrive in two fragments)
+            mode = "socket" if i % 3 == 1 else "serial"
+            specs.append((stmts, acks, status, rng.random() < 0.15 and not lose and not slow, lose if mode == "serial" else 0, slow, mode))
         traces = run_all(specs)
         for t in traces:
             t["meta"]["driver"] = "random"
